@@ -105,7 +105,7 @@ type c01Trace struct {
 }
 
 func checkC01(c *Ctx) {
-	c.Rep.Rule = "conformant sessions (open, every request kind at both ends and the middle of every line and at two positions outside the text, document and workspace requests, an edit, a completion, a save, a hover, close) are run on fresh real servers over generated workspaces: (a) Hostile.tla's strings over 27 lexer-relevant byte classes (all of length <= 3, a seeded sample of length 4 quick / all thorough), (b) Hostile.tla's annotation blocks in which two aliases and a class refer to each other through every wrapper, used in seven ways, (c) enum blocks and over-long error lists, (d) a seeded sample of LuaGrammar.tla's chunks and single-token mutants, (e) position sweeps over every line:character of small buffers, (f) ClassGraph.tla's class hierarchies that contain an inheritance cycle, declared in one, two or three files, with a variable of every class (a seeded third quick / all thorough). Every session is recorded as an event trace (send/reply/notify/push/tick/crash/fault) and LivenessTrace.tla replays the traces through Liveness.tla, TLC evaluating Good (alive, no swallowed internal fault, no request overdue) after every event; all other families' replays run under the same crash/hang monitor; distinct = distinct workspaces"
+	c.Rep.Rule = "conformant sessions (open, every request kind at both ends and the middle of every line and at two positions outside the text, document and workspace requests, an edit, a completion, a save, a hover, close) are run on fresh real servers over generated workspaces: (a) Hostile.tla's strings over 27 lexer-relevant byte classes (all of length <= 3, a seeded sample of length 4 quick / all thorough), (b) Hostile.tla's annotation blocks in which two aliases and a class refer to each other through every wrapper, used in seven ways, every second one with its declarations in another file than its uses, (c) enum blocks and over-long error lists, (d) a seeded sample of LuaGrammar.tla's chunks and single-token mutants, (e) position sweeps over every line:character of small buffers, (f) ClassGraph.tla's class hierarchies that contain an inheritance cycle, declared in one, two or three files, with a variable of every class (a seeded third quick / all thorough). Every session is recorded as an event trace (send/reply/notify/push/tick/crash/fault) and LivenessTrace.tla replays the traces through Liveness.tla, TLC evaluating Good (alive, no swallowed internal fault, no request overdue) after every event; all other families' replays run under the same crash/hang monitor; distinct = distinct workspaces"
 	c.Rep.Assumptions = []string{
 		"the quantifier over bytes* is met only through these structured generators; there is no coverage-guided byte fuzzing in this family",
 		"a request is overdue after 10 s without an answer (three orders of magnitude above the measured norm); the child is then killed",
@@ -215,15 +215,29 @@ func checkC01(c *Ctx) {
 		}
 		text := sb.String()
 		id++
+		// every second block is split over two files: the declarations in types.lua, the typed variables and their uses in
+		// an.lua (the declarations are then found through the workspace-wide table instead of the file's own)
+		files := map[string]string{"an.lua": text}
+		first := 9
+		if hash64(string(j), c.Seed)%2 == 1 {
+			all := strings.SplitAfter(text, "\n")
+			files = map[string]string{"types.lua": strings.Join(all[:6], ""), "an.lua": strings.Join(all[6:], "")}
+			text = files["an.lua"]
+			first = 3
+		}
 		pos := [][2]int{}
 		lines := strings.Split(text, "\n")
-		for li := 9; li < len(lines); li++ {
+		for li := first; li < len(lines); li++ {
 			for ci := 0; ci <= len(lines[li]); ci += 2 {
 				pos = append(pos, [2]int{li, ci})
 			}
 		}
-		pc := c01Session(id, map[string]string{"an.lua": text}, nil, "an.lua", text, pos)
-		add("annotation block\n"+text, append(json.RawMessage{}, j...), pc)
+		pc := c01Session(id, files, nil, "an.lua", text, pos)
+		desc := "annotation block\n"
+		if t, ok := files["types.lua"]; ok {
+			desc += "-- types.lua\n" + t + "-- an.lua\n"
+		}
+		add(desc+text, append(json.RawMessage{}, j...), pc)
 	}) {
 		return
 	}
